@@ -18,7 +18,7 @@ func VerifMemLRUHistory() {
 	capacity := verif.Uint64("capacity")
 	h := vmNew(capacity, 2)
 	h.sizeFn = vmSmallSize
-	steps := verif.Bound("steps", 3, 5)
+	steps := verif.Bound("steps", 3, 4)
 	ops := []int{voCreate, voOpen, voMarkComplete, voDelete, voBan, voUnban}
 	for i := 0; i < steps; i++ {
 		h.step(ops, 1)
